@@ -84,7 +84,19 @@ def buffer_count_syms(facts, arg, defs):
         return None, None
     syms = set()
     txt = []
-    for f in factors(ln, defs):
+    def _factors(e, depth=0):
+        """multiplicative factors; a local is expanded only when its definition is itself a product"""
+        e = strip(e)
+        if e.get("k") == "Bin" and e.get("op") == "*":
+            return _factors(e["a"], depth) + _factors(e["b"], depth)
+        if e.get("k") == "Cast":
+            return _factors(e["e"], depth)
+        if e.get("k") == "Path" and e.get("res") == "local" and depth < 6:
+            ds = defs.defs.get(e["lid"], [])
+            if len(ds) == 1 and strip(ds[0]).get("k") == "Bin" and strip(ds[0]).get("op") == "*":
+                return _factors(ds[0], depth + 1)
+        return [e]
+    for f in _factors(ln):
         c = chain_of(f, defs)
         if c:
             syms.add(c)
@@ -92,6 +104,26 @@ def buffer_count_syms(facts, arg, defs):
         else:
             txt.append("<expr>")
     return syms, " * ".join(txt)
+
+
+def _min_operands(e, defs, depth=0):
+    """chains of the operands of a `min` expression (through single-definition locals), else []"""
+    e = strip(e)
+    if depth > 4:
+        return []
+    if e.get("k") == "Cast":
+        return _min_operands(e["e"], defs, depth)
+    if e.get("k") == "MCall" and e.get("name") == "min" and len(e["args"]) == 1:
+        return [chain_of(e["recv"], defs), chain_of(e["args"][0], defs)] + _min_operands(e["recv"], defs, depth + 1) + \
+            _min_operands(e["args"][0], defs, depth + 1)
+    if e.get("k") == "Call" and (callee(e) or {}).get("name") == "min" and len(e["args"]) == 2:
+        return [chain_of(e["args"][0], defs), chain_of(e["args"][1], defs)]
+    lo = local_of(e)
+    if lo:
+        ds = defs.defs.get(lo[0], [])
+        if len(ds) == 1:
+            return _min_operands(ds[0], defs, depth + 1)
+    return []
 
 
 def run_count(facts, rep, files=None):
@@ -145,6 +177,16 @@ def run_count(facts, rep, files=None):
                 idx[k0] = idx.get(k0, 0) + 1
                 key = "%s#%s/%s" % (k0, idx[k0], (root_local(b) or (0, "?"))[1])
                 n += 1
+                # a count that is the minimum of several counts never exceeds any of them: fine for a buffer whose own
+                # count is one of the operands of the min
+                mins = _min_operands(pc, defs)
+                if syms is not None and mins:
+                    normb = {(s_[0], op_root(s_[1])) for s_ in syms}
+                    hit = [m for m in mins if m is not None and (m in syms or (op_root(m[1]) is not None and (m[0], op_root(m[1])) in normb))]
+                    if hit:
+                        rep.ok(R, key, "count is a minimum that includes the buffer's own count %s(%s)" %
+                               (".".join(hit[0][0]), hit[0][1]), facts.loc(p, c))
+                        continue
                 if syms is None or pcs is None:
                     rep.unresolved(R, key, "buffer length or count not expressible as accessor chains", facts.loc(p, c))
                     continue
